@@ -15,3 +15,7 @@ func verifRef(s *session, kind string, vid int64, files []tFiles, d *vDelta) {}
 func verifCompaction(db *DB, c *compaction, minSeq uint64, trivial bool) {}
 
 func verifB(b bool) int64 { return 0 }
+
+func verifBatchID(b *Batch) int64 { return 0 }
+
+func verifMergeID(m *writeMerge) int64 { return 0 }
